@@ -91,7 +91,15 @@ func vpH_C18_refuse() {
 	fromSnap := vpCloneItem(from)
 	var err error
 	why := ""
-	switch vpChoice(5) {
+	switch vpChoice(7) {
+	case 5: // a nil pointer of the value's own type counts as nil too
+		why = "typed-nil-from"
+		p := vpMayPanic(func() { _, err = CopyItemProperties(to, vpNilOfKind(1+ti)) })
+		vpAssert("refuse/no-panic/"+why, !p)
+	case 6:
+		why = "typed-nil-to"
+		p := vpMayPanic(func() { _, err = CopyItemProperties(vpNilOfKind(1+ti), from) })
+		vpAssert("refuse/no-panic/"+why, !p)
 	case 0:
 		why = "nil-to"
 		_, err = CopyItemProperties(nil, from)
